@@ -201,7 +201,7 @@ func (x *opFunction) Validate(rootValue cue.Value, cuePath CuePath, previousType
 		// Primative Kinds:
 		case cue.BoolKind:
 			returnedType.Type = PT_Boolean
-		case cue.StringKind:
+		case cue.StringKind, cue.BytesKind:
 			returnedType.Type = PT_String
 		case cue.NumberKind, cue.IntKind, cue.FloatKind:
 			returnedType.Type = PT_Number
